@@ -82,7 +82,7 @@ def h2_source(facts, cfg):
     deny = f'{enum_t}::{[f for f in mc["fields"] if f != mc["grant"]][0]}'
 
     def decl(ev):
-        return ' '.join(f'{f[1]} {f[0]}({i + 1});' for i, f in enumerate(ev.formals))
+        return ' '.join(f'{lab.value_type(f[1])} {f[0]}({i + 1});' for i, f in enumerate(ev.formals))
 
     def call(ev):
         return ', '.join(f[0] for f in ev.formals)
